@@ -25,6 +25,7 @@ modified a graph object".  The intermediate values come from a recording subclas
 modules are made to build while impl() runs (behaviour unchanged, restored afterwards) and a reporting wrapper of _pre_check.
 """
 import itertools
+import json
 
 from ..coqrun import cbool, clist, copt
 from ..tok import S
@@ -74,7 +75,9 @@ EXPLANATION = ("Exhaustive sub-space (both tiers): all unordered pairs of iso cl
                "filter flag, induced and monomorphism mode, every facade by keyword and positionally, several attribute selections, "
                "queries issued in PRNG order on shared graph objects.  The rest (3-node hcount pairs, random pairs <= 8 nodes, 10-14 node "
                "pairs, long histories, histories with in-place edits, raw option values, constructor keyword sets, common-subgraph calls, "
-               "SynKit / ITS graphs; thorough: 4-node classes) is sampled.")
+               "SynKit / ITS graphs, corpus reaction centres in their ITS graphs) is sampled.  Thorough only: ALL 13 835 unordered pairs of "
+               "4-node iso classes with equal element multiset and equal bond count (every class also against a renumbered copy of itself); "
+               "the remaining pairs of 4-node classes are sampled.")
 TRUSTED_BASE = [
     "Coq 8.16.1 kernel + vm_compute (no native_compute)",
     "hand-written model coq/model/C07_Model.v tied to graph_matcher.py / subgraph_matcher.py (SubgraphMatch) / graph_morphism.py by the per-run correspondence",
@@ -989,6 +992,16 @@ def oracle(case):
             want = bool(_embed(gs[c], gs[p], nmatch, ematch, ctype == "induced", first_only=True))
             if got != want:
                 bad("filter-neutral" if filt else "subgraph-def", "%s: verdict %r, %s containment by brute force %r" % (tag, got, ctype, want))
+            elif not edits:
+                # induced containment implies monomorphic containment (C07_induced_implies_mono): cross-check of the answers of one history
+                key = (variant[0], c, p, json.dumps([nn, nd, eattr, cmps]))
+                ind_ans, mono_ans = answered.setdefault(("sub",) + key, [None, None])
+                if ctype == "induced":
+                    answered[("sub",) + key][0] = ind_ans = got
+                else:
+                    answered[("sub",) + key][1] = mono_ans = got
+                if ind_ans is True and mono_ans is False:
+                    bad("subgraph-def", "%s: the induced test of the same call answers True but the monomorphism test False" % tag)
         elif k == "giso":
             nmatch = lambda h, pp: h.get("element", "*") == pp.get("element", "*") and h.get("charge", 0) == pp.get("charge", 0)
             ematch = lambda h, pp: h.get("order", 1) == pp.get("order", 1)
@@ -1456,6 +1469,33 @@ def _gen_corpus(tier, rng):
     return cases
 
 
+def _gen_pairs4(rng, classes4):
+    """Thorough tier: ALL unordered pairs of 4-node iso classes with the same element multiset and the same number of bonds (13 835
+    pairs incl. every class against a renumbered copy of itself) — the pairs of equal order where an isomorphism decision, the WL
+    filter and the equal-size shortcut are not decided by the counts alone.  25 partners share one graph object per case."""
+    import collections
+    grp = collections.defaultdict(list)
+    for g in classes4:
+        grp[(tuple(sorted(a.get("element") for _, a in g["nodes"])), len(g["edges"]))].append(g)
+    es = [dict(E_FULL), dict(E_FULL, wl=True), {"na": ["element"], "ea": ["order"], "wl": True, "mm": 1}]
+    cases = []
+    for key in sorted(grp, key=repr):
+        members = grp[key]
+        for i, a in enumerate(members):
+            partners = members[i:]
+            for off in range(0, len(partners), 25):
+                chunk = partners[off:off + 25]
+                gs = [_present(a, rng)] + [_present(b, rng, extra=9) for b in chunk]
+                qs = []
+                for k in range(1, len(gs)):
+                    qs += [["iso", 0, 0, k], ["iso", 1, k, 0], ["maps", 1, 0, k], ["iso", 2, 0, k],
+                           ["sub", "sm", k, 0, True, "induced", NAMES_DEF, "order"], ["sub", "gm", 0, k, False, "mono", NAMES_DEF, "order"],
+                           ["giso", 0, k], ["fgi", k, 0, True, True]]
+                rng.shuffle(qs)
+                cases.append(dict(kind="pairs4", graphs=gs, engines=[dict(e) for e in es], queries=qs))
+    return cases
+
+
 def gen_cases(tier, rng):
     cases = _gen_mccs(tier, rng) + _gen_synkit(tier, rng) + _gen_its(tier, rng) + _gen_corpus(tier, rng)
     # ---- degenerate values: all ordered pairs of the zoo (second graph renumbered), every entry point
@@ -1517,6 +1557,8 @@ def gen_cases(tier, rng):
         cases.append(dict(kind="edited", graphs=vals, objects=2, engines=es, queries=qs))
     noh = {n: G.iso_classes(n, G.MOL_NODE_LABELS_NOH, G.MOL_EDGE_LABELS) for n in (1, 2, 3, 4)}
     wh = {n: G.iso_classes(n, G.MOL_NODE_LABELS, G.MOL_EDGE_LABELS) for n in (1, 2, 3)}
+    if tier == "thorough":
+        cases += _gen_pairs4(rng, noh[4])
     # ---- all unordered pairs of iso classes (each also against a relabelled copy of itself)
     reps = noh[1] + noh[2] + noh[3] + (noh[4] if tier == "thorough" else [])
     if tier == "thorough" and len(reps) > 450:
